@@ -187,7 +187,8 @@ func (filter *SearchableQueryFilter) filterColumnEqualComparisonExprs(whereNode 
 
 			rColumnSetting := GetColumnSetting(rColumn, columnInfo.Table, filter.schemaStore)
 			if rColumnSetting != nil {
-				if rColumnSetting.IsSearchable() {
+				// both columns have to carry a search hash: a tokenized left column has none
+				if rColumnSetting.IsSearchable() && lColumnSetting.IsSearchable() {
 					exprs = append(exprs, SearchableExprItem{
 						Expr:    expr,
 						Setting: rColumnSetting,
